@@ -38,7 +38,7 @@ SaveLoad ==
 NextR ==
   \/ \E present \in FnSet(Groups, [gi \in Groups |-> SUBSET ParamsOf(gi)]) :
        StepBoth(present, [gi \in Groups |-> AllOk(Cfg[gi])])
-  \/ \E m \in HyperMoves : SetHyperBoth(m[1], m[2], m[3])
+  \/ \E m \in {x \in HyperMoves : x[1] # 0} : SetHyperBoth(m[1], m[2], m[3])
   \/ SaveLoad
 SpecR == InitR /\ [][NextR]_varsR
 
